@@ -85,4 +85,6 @@ def run(rep: Report, tier: str, only=None) -> None:
 	]
 	rep.outside = ['fragments longer than the bound', 'escapes inside quotes', 'unbalanced bracket inside a quoted string', 'multi-character delimiters', 'parse_to_formatter']
 	rep.run_jobs(jobs)
+	if not only or 'L10' in only:
+		rep.run_closed('L10.dictcomp_pipeline', 'harness.c18_pipeline', 'dictcomp_closed', {}, '9 dict comprehensions through the real pipeline (keys / values with top-level blanks, calls with commas, ternaries, nested brace groups, strings holding delimiters): the emitted `__ret[key] = value;` carries the text emitted for the key and the value expression on their own (closed)')
 	rep.check_recorded()
